@@ -38,12 +38,18 @@ def run_contract(contract: dict, inputs: dict, fn=None):
     except Exception as e:
         return dict(outcome='spec-error', detail=f'requires: {e!r}')
     order = list(contract.get('order', []))
-    args = [inputs[n] for n in order if n in inputs and n != 'cls']
+    kwonly = set()
+    try:
+        kwonly = {n for n, p in inspect.signature(fn).parameters.items() if p.kind == p.KEYWORD_ONLY}
+    except (TypeError, ValueError):
+        pass
+    args = [inputs[n] for n in order if n in inputs and n != 'cls' and n not in kwonly]
+    kwargs = {n: inputs[n] for n in order if n in inputs and n in kwonly}
     failed = []
     raised = None
     b = None
     try:
-        out = fn(*args)
+        out = fn(*args, **kwargs)
         if contract.get('is_generator') or inspect.isgenerator(out):
             b = {k: view(v, ins) for k, v in inputs.items()}
             for src in contract.get('ghost_init', []):
@@ -103,7 +109,12 @@ def run_contract(contract: dict, inputs: dict, fn=None):
 def replay_model(contract: dict, model: dict):
     from .concrete import build, DtypeMap
     dm = DtypeMap()
-    inputs = {k: build(decode(v), dm) for k, v in model.items()}
+    if contract.get('concrete_inputs'):
+        import importlib
+        mod, fn = contract['concrete_inputs'].split(':')
+        inputs = getattr(importlib.import_module(mod), fn)({k: decode(v) for k, v in model.items()})
+    else:
+        inputs = {k: build(decode(v), dm) for k, v in model.items() if not k.startswith('__')}
     from .concrete import view
     shown = {k: repr(view(v, ()))[:300] for k, v in inputs.items()}      # proxies: safe repr of the entry state
     r = run_contract(contract, inputs)
